@@ -352,7 +352,10 @@ func c19Run(c *Ctx) {
 		for _, src := range []string{
 			Lines(For(Var("i", "0"), "i < 4", "i = i + 1", "{ "+Print("1 << i")+" }"), Print("12 >> 0"), Print("0 << 0"), Print("5 % 5"), Print("0 / 1"), Print("0 ** 0"), Print(`"end"`)),
 			Lines(Var("nm", BI("input")), Print("!!nm"), Print("- -3"), Print("!-1"), Print("-~5"), Print("~~7"), Print("!!!0"), Print("2 * - - 2"), Print(`"end"`)),
-			// value-less returns in every position of a body: early exit, last statement, inside loops and nested blocks
+			// a value-less return yields nil whatever earlier calls returned (lookup helpers with a "not found" exit)
+		Lines(Var("rows", `[{nm: "a", v: 30}, {nm: "b", v: 40}]`), Fun("find", "w", " "+For(Var("i", "0"), "i < "+BI("len", "rows"), "i = i + 1", "{ "+If("rows[i].nm == w", "{ "+Ret("rows[i]")+" }")+" }")+" "+Ret("")+" "), Print(`find("a").v`), Var("miss", `find("zzz")`), Print("miss"), Print("miss == nil"), IfElse("miss == nil", Print(`"none"`), Print("miss.v")), Print(`find("b").v`), Print(`find("q")`), Print(`"end"`)),
+		Lines(Fun("price", "k", " "+If("k == 1", "{ "+Ret("30")+" }")+" "+Ret("")+" "), Print("price(1)"), Print("price(2)"), Print("[price(1), price(2), price(1)]"), Var("p", "price(2)"), IfElse("p", Print(`"has"`), Print(`"no price"`)), Print(`"end"`)),
+		// value-less returns in every position of a body: early exit, last statement, inside loops and nested blocks
 		Lines(Fun("log", "m", " "+If(`m == ""`, "{ "+Ret("")+" }")+" "+Print("m")+" "+Ret("")+" "), `log("");`, `log("x");`, Fun("scan", "n", " "+While(True(), "{ "+If("n > 2", "{ { "+Ret("")+" } }")+" n = n + 1; }")+" "), "scan(0);", Print("scan(5)"),
 			Fun("only", "", Ret("")), Print("only()"), Fun("sp", "", " "+K["return"]+" ; "), Print("sp()"), Fun("nl", "", " "+K["return"]+"\n; "), Print("nl()"), Print(`"end"`)),
 		Lines(Fun("m", "a, b", " "+Ret("a % b")+" "), Print("m(7, 2)"), Print("m(7.5, 2)"), Print("m(0 - 7, 3)"), Print("m(1, 0.1)"), Print("m(10 ** 309, 5)"), Print("m(5, 10 ** 309)"), Print("1 / 0.0000000001"), Print(`"end"`)),
